@@ -14,7 +14,7 @@ from ginsim import probes, sched, shrink, world
 
 ID = 'C18'
 LEVEL = 'exploration'
-QUICK_RUNS = 6000
+QUICK_RUNS = 4000
 THOROUGH_RUNS = 120000
 SHRINK_BUDGET = 150
 RULE = ('run i draws from Random("<seed>/C18/<i>"): 2-4 probe functions, a '
